@@ -31,10 +31,15 @@ def run(ctx):
     ctx.suites_run.append(oracles.SUITE)
     rng = ctx.rng
     n = 8 if not ctx.thorough else 40
-    ctx.rule("all exported optimizers × tasks (continuous regimes, multi-objective with weights, integer-coded pairs, tasks whose objective raises part-way) × configs × seeds × serial/thread/process: "
+    ctx.rule("all exported optimizers × tasks (continuous regimes, multi-objective with weights, integer-coded pairs, tasks whose objective raises part-way) × configs (incl. every accepted candidate value of every algorithm parameter, reversed ranges included) × seeds × serial/thread/process: "
              "deep dump of config and task before and after every optimize(), returning or raising; plus one shared-config probe per class; a case = one run; non-trivial = all")
     js = jobs.make_jobs(rng, optimizers.names(), trace.CONT_KINDS + ["multiobj", "mixed", "perm", "disc"], n,
-                        modes=("serial", "serial", "thread", "process"), max_cycles_choices=(1, 2, 3, 5), pop_scales=(1, 1.5), multi=True, trace_events=False)
+                        modes=("serial", "serial", "thread", "process"), max_cycles_choices=(1, 2, 3, 5), pop_scales=(1, 1.5), vary_params=0.5, multi=True, trace_events=False)
+    # systematic: every accepted candidate value of every algorithm parameter once (incl. reversed ranges)
+    for name in optimizers.names():
+        for k, v in optimizers.param_variants(name):
+            js.append({"name": name, "kind": "cont-sym", "specs": trace.task_specs(rng, "cont-sym", 3), "objective": "sphere", "minmax": "min", "seed": rng.randrange(1, 10 ** 6),
+                       "cfg": {"max_cycles": 2, "fitness_error": None, k: v}, "mode": "serial", "trace": False})
     results = pmap(trace.run_traced, js)
     for r in results:
         ctx.case(repr(oracles.job_key(r["job"])), kind=f"{r['job']['kind']}:{r['job']['mode']}:{'ok' if 'result' in r else 'raised'}")
